@@ -1617,6 +1617,18 @@ def np_logical_and(I, args, kw):
     return binop(I, ast.BitAnd(), a, b)
 
 
+@model(np.atleast_1d)
+def np_atleast_1d(I, args, kw):
+    """np.atleast_1d(a) is a itself for an array with at least one axis (audited natively)"""
+    a = I.unwrap(args[0])
+    if isinstance(a, Arr) and a.ndim >= 1:
+        theory.use("T-np.atleast_1d(a) is a when a.ndim >= 1")
+        return a
+    if isinstance(a, Opaque) and I.lenient:
+        return Opaque(f"atleast_1d({a.tag})")
+    raise Unsupported("np.atleast_1d of a scalar or unknown value")
+
+
 @model(np.abs)
 def np_abs(I, args, kw):
     a = I.unwrap(args[0])
